@@ -131,4 +131,63 @@ def rule_capacity(ctx):
               "(MAX_EXTRA_HEADERS = %s)" % n)
 
 
-RULES = [rule_adaptors, rule_push, rule_header_order, rule_capacity]
+def rule_append_only(ctx):
+    """R16.5: between the caller's addition and the head writer the caller-added list is append-only: the only mutable
+    access to the list field anywhere in the crate is the push in set_header (no truncate / clear / element store /
+    replacement of the list), so nothing added in the prepare state can disappear before it is written"""
+    R = "R16.5"
+    prog = ctx.prog
+    from .mir import callee_path, short
+    hd = prog.find("AmendedRequest::<Body>::headers")
+    if not ctx.require(hd, R, "entry", "effective header iterator"):
+        return
+    # the list field = the ArrayVec field of AmendedRequest that the effective iterator reads first
+    fld = None
+    for blk in hd.blocks:
+        for st_ in blk["stmts"]:
+            if st_["k"] == "assign" and st_["rv"]["k"] == "ref":
+                pr = st_["rv"]["place"].get("proj", [])
+                if pr and pr[-1].get("k") == "field" and "ArrayVec<" in pr[-1].get("ty", "") and fld is None:
+                    fld = (pr[-1]["name"], pr[-1]["ty"])
+    if not ctx.require(fld, R, "list-field", "fixed-capacity list field read by the effective header iterator"):
+        return
+    name, ty = fld
+    muts = []
+    shared = 0
+    for b in prog.nonderived_bodies():
+        for i, blk in enumerate(b.blocks):
+            for st_ in blk["stmts"]:
+                if st_["k"] != "assign":
+                    continue
+                pl = st_["place"].get("proj", [])
+                if any(e.get("k") == "field" and e.get("name") == name and e.get("ty") == ty for e in pl):
+                    muts.append((b, i, "store into the list"))
+                rv = st_["rv"]
+                if rv["k"] in ("ref", "addr_of"):
+                    pr = rv["place"].get("proj", [])
+                    hit = [j for j, e in enumerate(pr) if e.get("k") == "field" and e.get("name") == name and e.get("ty") == ty]
+                    if not hit:
+                        continue
+                    if not rv.get("mut"):
+                        shared += 1
+                        continue
+                    loc = st_["place"]["local"]
+                    t = blk["term"]
+                    callee = short(callee_path(t) or "") if t["k"] == "call" else ""
+                    arg0 = t["args"][0].get("place", {}).get("local") if t["k"] == "call" and t["args"] else None
+                    if callee.endswith("ArrayVec::<T, N>::push") and arg0 == loc and hit[-1] == len(pr) - 1:
+                        muts.append((b, i, "push"))
+                    else:
+                        muts.append((b, i, "mutable access passed to %s" % (callee or "a later use")))
+                if rv["k"] == "use" and rv["op"].get("k") == "move":
+                    pr = rv["op"]["place"].get("proj", [])
+                    if pr and pr[-1].get("k") == "field" and pr[-1].get("name") == name and pr[-1].get("ty") == ty:
+                        muts.append((b, i, "the list is moved out"))
+    bad = ["%s: %s" % (b.short, what) for b, i, what in muts if what != "push"]
+    pushers = sorted(set(b.short for b, i, what in muts if what == "push"))
+    ctx.check(pushers == ["AmendedRequest::<Body>::set_header"] and not bad and shared >= 1, R, "append-only",
+              "the caller-added list `%s` is only ever appended to (push in set_header; %d read-only uses); no truncate, clear, element store or "
+              "replacement exists anywhere in the crate" % (name, shared), loc=body_loc(hd), detail=bad[:4] + (["pushers: %s" % pushers] if pushers != ["AmendedRequest::<Body>::set_header"] else []))
+
+
+RULES = [rule_adaptors, rule_push, rule_append_only, rule_header_order, rule_capacity]
